@@ -82,6 +82,11 @@ func corpus() []corpusCase {
 			c: base(n1, job1("a", frac(run, "n1", "n1-G1")), job1("b", whole(run, "n1", 1)), job1("c", core.PodSpec{Fraction: "0.25", Status: rel, Node: "n1", Groups: []string{"n1-G2"}}), job1("d", frac(pend, ""))),
 			cmds: []cmdSpec{{Kind: "checkpoint"}, {Kind: "pipeline", Pod: "d-0", Node: "n1", HasGroups: true, Groups: []string{"n1-G2"}},
 				{Kind: "rollback", Cp: -1}}},
+		{name: "W11-gpu-memory-pod-between-nodes-of-different-gpu-memory", wf: true,
+			c: base([]core.NodeSpec{{Name: "n1", Cpu: 16000, Mem: 64 << 30, Gpus: 2, Pods: 110, GpuMem: 100}, {Name: "n2", Cpu: 16000, Mem: 64 << 30, Gpus: 2, Pods: 110, GpuMem: 200}},
+				job1("a", core.PodSpec{GpuMemory: 50, Status: run, Node: "n1", Groups: []string{"n1-G1"}}), job1("b", core.PodSpec{Fraction: "0.25", Status: run, Node: "n2", Groups: []string{"n2-G1"}})),
+			cmds: []cmdSpec{{Kind: "evict", Pod: "a-0"}, {Kind: "checkpoint"}, {Kind: "pipeline", Pod: "a-0", Node: "n2", HasGroups: true, Groups: []string{"x1"}},
+				{Kind: "rollback", Cp: -1}, {Kind: "evict", Pod: "b-0"}, {Kind: "pipeline", Pod: "b-0", Node: "n1", HasGroups: true, Groups: []string{"n1-G1"}}, {Kind: "discard"}}},
 		{name: "W10-evict-move-unevict-nested", wf: true,
 			c: base(n2, job1("a", frac(run, "n1", "n1-G1")), job1("b", whole(run, "n1", 2)), job1("c", whole(pend, "", 1))),
 			cmds: []cmdSpec{{Kind: "evict", Pod: "a-0"}, {Kind: "checkpoint"}, {Kind: "evict", Pod: "b-0"}, {Kind: "pipeline", Pod: "c-0", Node: "n1"},
